@@ -59,6 +59,7 @@ var findingFeatures = map[string][]string{
 	"range-struct-value-aliases-element":     {"structrole.range-value-modify"},
 	"nil-func-field-not-nil":                 {"structrole.nil-func-field"},
 	"field-pointer-stale-after-whole-assign": {"structrole.field-pointer-whole-assign"},
+	"general-field-read-aliases-field":       {"structrole.general-field-read"},
 }
 
 // ---------------------------------------------------------------- opcode-level cases
